@@ -9,11 +9,17 @@ from tsv import env
 env.setup_path()
 
 
-def main(cpath, out):
+def main(cpath, out, order_seed=None):
     env.assert_repo()
     from TexSoup import TexSoup
-    res = []
-    for src in json.load(open(cpath)):
+    corpus = json.load(open(cpath))
+    order = list(range(len(corpus)))
+    if order_seed is not None:
+        import random
+        random.Random(int(order_seed)).shuffle(order)
+    res = [None] * len(corpus)
+    for idx in order:
+        src = corpus[idx]
         h = hashlib.blake2b(digest_size=8)
         for tol in (0, 1):
             try:
@@ -21,9 +27,9 @@ def main(cpath, out):
                 h.update(repr((str(s), repr(s.expr))).encode())
             except (EOFError, TypeError, AssertionError) as e:
                 h.update(('%s:%s' % (type(e).__name__, e)).encode())
-        res.append(h.hexdigest())
-    json.dump(res, open(out, 'w'))
+        res[idx] = h.hexdigest()
+    json.dump({'digests': res, 'order': order}, open(out, 'w'))
 
 
 if __name__ == '__main__':
-    main(sys.argv[1], sys.argv[2])
+    main(*sys.argv[1:4])
